@@ -171,6 +171,50 @@ FLOAT_OPS = {
 }
 
 
+def shared_dict_cases(ctx):
+    """equal content, but in one of the two objects ONE dict object serves as the metadata of several nodes / hyperedges (what
+    `metadata=[md] * n` or `set_node_metadata(v, h.get_node_metadata(u))` produce): object identity is not content"""
+    import hypergraphx as hx
+    from hypergraphx.readwrite.hashing import hash_hypergraph
+
+    recs = {
+        "Hypergraph": (hx.Hypergraph, [((1, 2),), ((1,),)]),
+        "DirectedHypergraph": (hx.DirectedHypergraph, [(((1,), (2,)),), (((2,), (1,)),)]),
+        "TemporalHypergraph": (hx.TemporalHypergraph, [((1, 2), 0), ((1,), 1)]),
+        "MultiplexHypergraph": (hx.MultiplexHypergraph, [((1, 2), "a"), ((1,), "b")]),
+    }
+    n = 0
+    for name, (cls, edges) in recs.items():
+        for where in ("nodes", "edges", "node+edge", "all", "set-later"):
+            def mk(shared):
+                md = {"k": 1, "j": [1, 2]}
+                get = (lambda: md) if shared else (lambda: {"k": 1, "j": [1, 2]})
+                h = cls()
+                h.add_node(1, metadata=get() if where in ("nodes", "node+edge", "all") else {"k": 1, "j": [1, 2]})
+                h.add_node(2, metadata=get() if where in ("nodes", "all") else {"k": 1, "j": [1, 2]})
+                h.add_edge(*edges[0], metadata=get() if where in ("edges", "node+edge", "all") else {"k": 1, "j": [1, 2]})
+                h.add_edge(*edges[1], metadata=get() if where in ("edges", "all") else {"k": 1, "j": [1, 2]})
+                if where == "set-later":
+                    h.set_node_metadata(2, h.get_node_metadata(1)) if shared else h.set_node_metadata(2, {"k": 1, "j": [1, 2]})
+                return h
+            if where == "set-later" and not hasattr(cls, "set_node_metadata"):
+                continue
+            n += 1
+            ha, hb = mk(True), mk(False)
+            try:
+                a, b = hash_hypergraph(ha), hash_hypergraph(hb)
+            except Exception as e:
+                ctx.add_violation(Violation("%s/hash-raises/shared-metadata-object" % name, "hash_hypergraph raised %s: %s" % (type(e).__name__, e),
+                                            {"kind": "shared-dict", "type": name, "where": where}, size=4))
+                continue
+            if a != b:
+                ctx.add_violation(Violation("%s/equal-content-different-hash/shared-metadata-object" % name,
+                                            "one dict object used as the metadata of several items (%s) hashes differently from equal separate dicts" % where,
+                                            {"kind": "shared-dict", "type": name, "where": where}, size=4))
+    ctx.part("shared-metadata-objects", cases=n)
+    return n
+
+
 def run(ctx):
     table, byhash = {}, {}
     tot_c = tot_t = tot_e = 0
@@ -187,6 +231,7 @@ def run(ctx):
         tot_c += c
         tot_t += t
         tot_e += e
+    tot_e += shared_dict_cases(ctx)
     groups_multi = sum(1 for c, hs in table.items() if len(hs) == 1)
     ctx.require(len(table) > 500, "too few distinct contents reached (%d)" % len(table))
     ctx.require(tot_t > 20 * len(table) or ctx.violations, "too few histories per content")
@@ -223,6 +268,19 @@ def replay(witness, key=None):
         return spec, h
 
     k = witness["kind"]
+    if k == "shared-dict":
+        class _Ctx:
+            violations = []
+
+            def add_violation(self, v):
+                self.violations.append(v)
+
+            def part(self, *a, **kw):
+                pass
+
+        c = _Ctx()
+        shared_dict_cases(c)
+        return any(v.witness.get("type") == witness["type"] and v.witness.get("where") == witness["where"] for v in c.violations)
     if k == "equal-content":
         s, a = mk(witness, "hist_a")
         _, b = mk(witness, "hist_b")
